@@ -210,9 +210,9 @@ def r06_6_decoders_restore_every_field(ctx: Ctx) -> RuleResult:
 
 
 # shared with C04: every recurrence query made by the alternating map is used by the decision that follows (home id R04.8)
-from .c04 import r04_8_queries_are_used as _r04_8  # noqa: E402
+# (cross-registration moved to sa/rules/shared.py: SHARED)
 
-rule("C06")(_r04_8)
+# (cross-registration moved to sa/rules/shared.py: SHARED)
 
 
 @rule("C06")
@@ -234,9 +234,9 @@ def r06_7_memo_keys(ctx: Ctx) -> RuleResult:
 
 
 # shared with C02: zone rules anchored on 29 February must use the calendar's leap predicate (home id R02.5)
-from .c02 import r02_5_leap_decisions as _r02_5  # noqa: E402
+# (cross-registration moved to sa/rules/shared.py: SHARED)
 
-rule("C06")(_r02_5)
+# (cross-registration moved to sa/rules/shared.py: SHARED)
 
 
 @rule("C06")
@@ -294,4 +294,56 @@ def r06_9_optional_collection_guards(ctx: Ctx) -> RuleResult:
                     rr.ok({"fn": f.qual, "collection": unparse(t)})
                 else:
                     rr.fail(f.qual, f"the loop over `{unparse(it)}` is guarded by `{unparse(n.test)}`, a different collection: when only one of the two is present the loop runs over a missing section (or is skipped although there is data)", ctx.loc(f, n))
+    return rr
+
+
+@rule("C06")
+def r06_10_decoded_fields_are_used(ctx: Ctx) -> RuleResult:
+    """Every field that a zone-data type stores from its decoder must take part in what the zone *does* (transitions, offsets,
+    names, lookups): a method other than the encoder, the equality / hash / repr methods and the field's own accessor reads it.
+    A field that is only carried from `read` to `write` and `__eq__` has been cut out of the behaviour - the bytes say one thing
+    (e.g. "the Saturday at or before the 30th") and the zone does another."""
+    from ..codec import codec_pairs
+    from ..codecpaths import ctor_param_fields, norm_name
+
+    rr = RuleResult("R06.10", "every decoded field of the zone-data types is read by some behaviour-bearing method (not only by write / equality / its own accessor)", min_instances=12)
+    M = ctx.M
+    PASSIVE = ("_write", "write", "__eq__", "__ne__", "__hash__", "__repr__", "__str__", "equals", "_read", "read", "__init__", "_ctor")
+    BEHAVIOURAL = ("_ZoneYearOffset", "_ZoneRecurrence", "_StandardDaylightAlternatingMap", "_PrecalculatedDateTimeZone", "_FixedDateTimeZone")
+    for c, w, r in codec_pairs(ctx):
+        if c.name not in BEHAVIOURAL:
+            continue  # location / mapping records are public data: their fields are the API
+        ctor = next((g for g in c.all_defs if g.name in ("_ctor", "__init__") or g.name.endswith("__ctor")), None)
+        if ctor is None:
+            continue
+        fields = sorted({fld for flds in ctor_param_fields(ctx, ctor).values() for fld in flds})
+        # accessor properties of each field
+        accessors: dict[str, set[str]] = {fld: {fld} for fld in fields}
+        for g in c.all_defs:
+            if g.kind == "property" and not isinstance(g.node, ast.Lambda):
+                rets = [n.value for n in own_nodes(g.node) if isinstance(n, ast.Return) and n.value is not None]
+                if len(rets) == 1 and isinstance(rets[0], ast.Attribute) and norm_name(rets[0].attr) in accessors:
+                    accessors[norm_name(rets[0].attr)].add(g.name)
+        # readers anywhere in the package (the field or its accessor on any object: names are specific enough)
+        for fld in fields:
+            rr.inst()
+            names = accessors[fld]
+            used_by = None
+            for g in set(M.func_of_node.values()):
+                if isinstance(g.node, ast.Lambda) or "_compatibility" in g.mod.rel:
+                    continue
+                if g.cls is c and (g.name in PASSIVE or g.name.endswith("__ctor") or (g.kind == "property" and g.name in names)):
+                    continue
+                for n in own_nodes(g.node):
+                    if isinstance(n, ast.Attribute) and isinstance(n.ctx, ast.Load) and (norm_name(n.attr) == fld or n.attr in names):
+                        # inside the class any such read counts; outside it the name must be one of the class's accessors
+                        if g.cls is c or n.attr in names:
+                            used_by = g
+                            break
+                if used_by:
+                    break
+            if used_by is not None:
+                rr.ok({"class": c.name, "field": fld, "read by": used_by.qual})
+            else:
+                rr.fail(c.qual, f"field `{fld}` is restored by the decoder and written by the encoder but no behaviour-bearing method reads it: that part of the zone data no longer influences what the zone does", ctx.loc(ctor))
     return rr
